@@ -30,11 +30,20 @@ int main(int argc, char* argv[])
 
     // Initialize solver and set parameters from command-line arguments
     GMGPolar solver;
-    solver.setParameters(argc, argv);
-    // Run Solver Setup with optional LIKWID markers
-    solver.setup();
-    // Execute Solve Phase with optional LIKWID markers
-    solver.solve();
+    try {
+        solver.setParameters(argc, argv);
+        // Run Solver Setup with optional LIKWID markers
+        solver.setup();
+        // Execute Solve Phase with optional LIKWID markers
+        solver.solve();
+    }
+    catch (const std::exception& error) {
+        // Option combinations rejected by the library (e.g. 'Take' without caching, too few multigrid levels)
+        std::cerr << "Error: " << error.what() << std::endl;
+        std::cerr << "Run with --help for the list of options." << std::endl;
+        LIKWID_CLOSE();
+        return EXIT_FAILURE;
+    }
 
     // Finalize LIKWID markers if enabled
     LIKWID_CLOSE();
